@@ -63,6 +63,7 @@ def ops_term(row):
 
 
 import concurrent.futures as cf
+import os
 import re
 import time
 
@@ -75,6 +76,8 @@ class Batch:
 
     def __init__(self, ctx):
         self.ctx = ctx
+        if not ctx.quick:
+            self.NSH = 16
         self.groups = []     # (name, terms, fns)
         self.res = {}
 
@@ -116,7 +119,7 @@ class Batch:
         for name, terms, fns in self.groups:
             for fn in fns:
                 self.res[(name, fn)] = []
-        with cf.ThreadPoolExecutor(max_workers=self.NSH) as ex:
+        with cf.ThreadPoolExecutor(max_workers=min(self.NSH, int(os.environ.get("VERIF_JOBS", "4")))) as ex:
             for got in ex.map(one, files):
                 for name, fn, bad in got:
                     self.res[(name, fn)].extend(bad)
@@ -224,7 +227,7 @@ def hist_report(ctx, batch, mode, rows):
 
 
 def ops_gen(ctx, vh, batch):
-    rows = ctx.vh_jsonl(vh, "rooms", ["-mode", "ops", "-seed", ctx.seed, "-n", 200 if ctx.quick else 5000])
+    rows = ctx.vh_jsonl(vh, "rooms", ["-mode", "ops", "-seed", ctx.seed, "-n", 200 if ctx.quick else 3000])
     if rows is None:
         return None
     terms, owner = [], []
@@ -339,7 +342,7 @@ def conc_term(r):
 
 
 def conc_gen(ctx, vh, batch):
-    rows = ctx.vh_jsonl(vh, "rooms", ["-mode", "conc", "-seed", ctx.seed, "-n", 1500 if ctx.quick else 40000])
+    rows = ctx.vh_jsonl(vh, "rooms", ["-mode", "conc", "-seed", ctx.seed, "-n", 1500 if ctx.quick else 12000])
     if rows is None:
         return None
     for r in rows:
@@ -428,12 +431,12 @@ def run(ctx):
     table = table_gen(ctx, vh, batch)
     hists = {}
     for mode, args in (("sender", []),
-                       ("nhist", ["-seed", ctx.seed, "-n", 100 if ctx.quick else 3000]),
-                       ("ahist", ["-seed", ctx.seed, "-n", 60 if ctx.quick else 2000])):
+                       ("nhist", ["-seed", ctx.seed, "-n", 100 if ctx.quick else 2000]),
+                       ("ahist", ["-seed", ctx.seed, "-n", 60 if ctx.quick else 1000])):
         hists[mode] = hist_gen(ctx, vh, batch, mode, args)
     ops = ops_gen(ctx, vh, batch)
     conc = conc_gen(ctx, vh, batch)
-    live = live_gen(ctx, vh, batch, "live", ["-seed", ctx.seed, "-n", 40 if ctx.quick else 600])
+    live = live_gen(ctx, vh, batch, "live", ["-seed", ctx.seed, "-n", 40 if ctx.quick else 400])
     joinrace = joinrace_gen(ctx, vh, batch)
     t3 = time.time()
     batch.run()
